@@ -181,7 +181,8 @@ def cubes_graph(tier, seed):
 
 VAL_BODIES = ['role:x', 'rule:{0}', 'rule:{1}', 'not rule:{1}', 'rule:nope',
               'not rule:nope', 'rule:{0} and role:x', 'role:x or not rule:{0}',
-              '(bar))', '!', 'rule:reg2', 'not (rule:reg2 or rule:{1})']
+              '(bar))', '!', 'rule:reg2', 'not (rule:reg2 or rule:{1})',
+              '(!', '!)', '( ! ) )', 'role:x and']
 
 
 def run_validator(ctx, nfile):
@@ -237,7 +238,8 @@ def run_validator(ctx, nfile):
                        if t in defined)
         cyclic = any(reaches_cycle(n, frozenset()) for n in defined)
         unknown = any(n not in regs for n in filerules)
-        unparseable = any(b == '(bar))' for b in filerules.values())
+        unparseable = any(b in ('(bar))', '(!', '!)', '( ! ) )',
+                                'role:x and') for b in filerules.values())
         want = 1 if (missing or undefined or cyclic or unknown or
                      unparseable) else 0
         row = {'file': filerules, 'missing': missing}
